@@ -300,12 +300,15 @@ class SaltMenuPart(Part):
 
     def cases(self):
         firsts = [chr(c) for c in range(32, 127)] + ["é", "中", "\t", "ß"]
-        return [{"salts": [f + "lab-2024" for f in firsts[i::8]] + ([""] if i == 0 else [])} for i in range(8)]
+        # whatever is derived from the salt (a salt character, a crypt salt ...) must be valid for every salt: the
+        # character followed by a fixed tail, alone, and doubled
+        return [{"salts": [f + t for f in firsts[i::8] for t in ("lab-2024", "", f)] + (["", "TESTSALT", "netconan"] if i == 0 else [])} for i in range(8)]
 
     def run(self, case):
         res = Res()
         secs = [refs.j9_encode("hunter2", "Q", "abc"), refs.j9_encode("pw", "-"), "$9$abc!defghij",
-                refs.type7_encode("Zq", 9), "$1$abcd$" + secdom._crypt_tail(22, 4), "c0ffee77AB", "4072", "Xk3#vT9q"]
+                refs.type7_encode("Zq", 9), "$1$abcd$" + secdom._crypt_tail(22, 4), "c0ffee77AB", "4072", "Xk3#vT9q",
+                "$6$%s$%s" % (secdom._crypt_tail(16, 5), secdom._crypt_tail(86, 9))]
         for ti, tmpl in enumerate(('set system tacplus-server 9.9.9.9 secret "{S}";', "password {S}")):
             f = {"id": "saltmenu.f%d" % ti, "template": tmpl}
             lines, meta = [], []
